@@ -327,6 +327,10 @@ func DB3ToMCAP(w io.Writer,
 			return fmt.Errorf("failed to write channel info: %w", err)
 		}
 	}
+	converted := make(map[uint16]bool, len(topics))
+	for _, t := range topics {
+		converted[t.id] = true
+	}
 	seq := make(map[uint16]uint32)
 	err = transformMessages(db, func(rows *sql.Rows) error {
 		var topicID uint16
@@ -339,6 +343,11 @@ func DB3ToMCAP(w io.Writer,
 		)
 		if err != nil {
 			return err
+		}
+		if !converted[topicID] {
+			// the message belongs to a topic that is not message-typed (e.g. a service event);
+			// such topics are not converted, and neither are their messages.
+			return nil
 		}
 		err = writer.WriteMessage(&mcap.Message{
 			ChannelID:   topicID,
